@@ -74,6 +74,10 @@ def generate(check, rng, tier, run_index):
             o['j'] = rng.below(1 << 10)
             o['f'] = rng.below(1 << 10)
             o['parallel'] = rng.chance(0.5)
+            # rarely used arguments: alignment on an atom subset, a different subset on the reference, and a call that must
+            # be refused (subsets of different length) -- a refused call must leave the object as it was
+            o['variant'] = rng.weighted([('all', 5), ('subset', 2), ('ref_subset', 2), ('refused', 2)])
+            o['bits'] = rng.below(1 << 40) | 7
         elif k in ('set_xyz', 'set_time'):
             o['seed'] = rng.below(1 << 30)
         elif k == 'set_cell':
@@ -569,6 +573,15 @@ def execute(check, case, workdir):
                     add(mm)
                 else:
                     res.probe('view_checked_and_dropped')
+                    if judge03 and cache_state(m) == 'set' and mm.n > 0 and mm.xyz.shape[1] >= 3:
+                        # the view inherits the cache of its parent: the precentered shortcut on it must agree with from-scratch
+                        T0 = md.Trajectory(mm.xyz.copy(), None)
+                        ref_v = md.rmsd(T0, T0, 0, parallel=False)
+                        got_v = md.rmsd(r, r, 0, precentered=True, parallel=False)
+                        res.probe('precentered_rmsd_on_view')
+                        if not rmsd_agrees(got_v, ref_v, mm.xyz, mm.xyz[0]):
+                            viol('view', 'rmsd_differs_from_scratch', {'expected': np.asarray(ref_v).tolist()[:8], 'got': np.asarray(got_v).tolist()[:8]}, stepno, flags)
+                        m.xyz = np.array(t.xyz, dtype=np.float32)     # documented in-place centring may have touched the shared coordinates
             elif kind == 'join':
                 cands = [x for x in pool if x.labels == m.labels and x.complete == m.complete and (x.L is None) == (m.L is None) and (x.A is None) == (m.A is None)]
                 u = pick(op['j'], cands)
@@ -706,10 +719,41 @@ def execute(check, case, workdir):
                 cands = [x for x in pool if x.xyz.shape[1] == m.xyz.shape[1]]
                 u = pick(op['j'], cands)
                 f = op['f'] % u.n
-                flags = 'self=%d,parallel=%d' % (u is m, op['parallel'])
                 refx = u.xyz[f].astype(np.float64).copy()
                 before_u = snapshot_bytes(u) if u is not m else None
-                t.superpose(u.t, frame=f, parallel=op['parallel'])
+                variant = op.get('variant', 'all')
+                na_ = m.xyz.shape[1]
+                sel = np.array([a for a in range(na_) if (op.get('bits', 7) >> (a % 40)) & 1], dtype=int)
+                if variant != 'all' and (len(sel) < 3 or len(sel) == na_):
+                    variant = 'all'
+                flags = 'self=%d,parallel=%d,%s' % (u is m, op['parallel'], variant)
+                if variant == 'refused':
+                    before_m = snapshot_bytes(m)
+                    cs_m = cache_state(m)
+                    res.fault('refused_superpose')
+                    try:
+                        t.superpose(u.t, frame=f, atom_indices=sel, ref_atom_indices=sel[:-1], parallel=op['parallel'])
+                        raised = False
+                    except Exception:
+                        raised = True
+                    res.log.append('%d superpose(refused) m%d -> %s' % (stepno, m.id, 'raised' if raised else 'accepted'))
+                    res.trace.append(('superpose', 'refused', cs_m, raised))
+                    if judge03 and raised and snapshot_bytes(m) != before_m:
+                        viol('superpose', 'refused_call_modified_object', {'cache': cs_m}, stepno, flags)
+                        m.xyz = np.array(t.xyz, dtype=np.float32)
+                        continue
+                    if judge03 and before_u is not None and snapshot_bytes(u) != before_u:
+                        viol('superpose', 'reference_mutated', {'reference_member': u.id}, stepno, flags)
+                        continue
+                    m.xyz = np.array(t.xyz, dtype=np.float32)
+                    continue
+                if variant == 'subset':
+                    t.superpose(u.t, frame=f, atom_indices=sel, parallel=op['parallel'])
+                elif variant == 'ref_subset':
+                    rsel = np.roll(sel, 1)
+                    t.superpose(u.t, frame=f, atom_indices=sel, ref_atom_indices=rsel, parallel=op['parallel'])
+                else:
+                    t.superpose(u.t, frame=f, parallel=op['parallel'])
                 res.log.append('%d superpose m%d onto m%d[%d]' % (stepno, m.id, u.id, f))
                 res.trace.append(('superpose', u is m, cache_state(m)))
                 if m.xyz.shape[1] >= 3 and judge03:
@@ -725,8 +769,14 @@ def execute(check, case, workdir):
                         if np.abs(d0 - d1).max() > 2e-4 * scale:
                             bad_kind = ('not_rigid', float(np.abs(d0 - d1).max()))
                             break
-                        if np.abs(live[k].mean(0) - refx.mean(0)).max() > 2e-4 * scale:
-                            bad_kind = ('centroid', float(np.abs(live[k].mean(0) - refx.mean(0)).max()))
+                        if variant == 'all':
+                            cen_live, cen_ref = live[k].mean(0), refx.mean(0)
+                        elif variant == 'subset':
+                            cen_live, cen_ref = live[k][sel].mean(0), refx[sel].mean(0)
+                        else:
+                            cen_live, cen_ref = live[k][sel].mean(0), refx[np.roll(sel, 1)].mean(0)
+                        if np.abs(cen_live - cen_ref).max() > 2e-4 * scale:
+                            bad_kind = ('centroid', float(np.abs(cen_live - cen_ref).max()))
                             break
                         # How good the superposition is numerically belongs to C06 (not claimed; the QCP kernel may give up on
                         # degenerate point sets): a history relies only on "rigid motion onto the reference's centroid".
